@@ -16,14 +16,15 @@ import math
 
 import numpy as np
 
-from .models import build_model, quad_hints
+from .models import activity, build_model, quad_hints
 from .oracles import nu_integral
 
 INF = float("inf")
 
 
 def sgn(x):
-    return -1.0 if x < 0 else 1.0
+    """sign with -0.0 (the harness's code for 'left limit at zero') on the negative side"""
+    return math.copysign(1.0, x) if x == 0 else (-1.0 if x < 0 else 1.0)
 
 
 class RefCopula:
@@ -101,11 +102,14 @@ class RefCopulaModel:
 
     def U(self, i, x):
         """marginal tail integral of the (truncated) i-th margin."""
-        key = (i, float(x))
+        neg = sgn(x) < 0
+        key = (i, float(x), neg)
         if key in self._cache:
             return self._cache[key]
         l, r = self.trunc[i]
-        if x >= 0:
+        if x == 0 and (l < 0 < r) and not activity(self.specs[i])[0]:
+            val = -INF if neg else INF  # infinite activity: U(0+-) = +-inf
+        elif not neg:
             a, b = max(x, l), r
             val = nu_integral(self.nus[i], a, b, 0, self.hints[i])[0] if a < b else 0.0
         else:
@@ -150,8 +154,8 @@ class RefCopulaModel:
                 if bi > 0:  # positive side: 1_(a,inf) - 1_(b,inf)
                     c.append(ai if pick == 0 else bi)
                     w *= 1.0 if pick == 0 else -1.0
-                else:  # negative side: 1_(-inf,b] - 1_(-inf,a]
-                    c.append(bi if pick == 0 else ai)
+                else:  # negative side: 1_(-inf,b] - 1_(-inf,a]; an end point b = 0 is the left limit 0-, coded -0.0
+                    c.append((-0.0 if bi == 0 else bi) if pick == 0 else ai)
                     w *= 1.0 if pick == 0 else -1.0
             if any(math.isinf(ci) for ci in c):
                 continue  # I(+-inf) is empty
